@@ -90,7 +90,8 @@ def run(ctx):
         targets = [src(t) for t in gst.targets[0].elts] if isinstance(gst, ast.Assign) and isinstance(gst.targets[0], ast.Tuple) else []
         args = [src(a) for a in gate[0][1].args]
         inv = find_stmt("$$x, $$J = self.inverse_rescale($$x)", f.node)
-        dens = find_stmt("$$lp -= $$J", f.node, {"J": inv[0][1]["J"]}) if len(inv) == 1 else []
+        # the density array is located as whatever the rescaling Jacobian is combined with (sign: C08.1)
+        dens = [h for pat_ in ("$$lp -= $$J", "$$lp += $$J", "$$lp = $$lp - $$J", "$$lp = $$lp + $$J", "$$lp = $$J + $$lp") for h in find_stmt(pat_, f.node, {"J": inv[0][1]["J"]})] if len(inv) == 1 else []
         xn = src(inv[0][1]["x"]) if len(inv) == 1 else None
         lpn = src(dens[0][1]["lp"]) if len(dens) == 1 else None
         ctx.ob("R-DOM", "C09.3", f, "when rescaling to the physical space, the generated points and their densities are re-bound to the outputs of check_prior_bounds", ("rescale", True) in facts and targets == args and xn is not None and lpn is not None and args and args[0] == xn and lpn in targets, f"`{src(gst)}` under {facts}")
